@@ -108,7 +108,10 @@ func (c *compiler) write(bb *strings.Builder, i interface{}) {
 	case *time.Time:
 		c.write(bb, *t)
 	case interfaceable:
-		c.write(bb, t.Interface())
+		var inner interface{}
+		if _, err := safely(func() { inner = t.Interface() }); err == nil {
+			c.write(bb, inner)
+		}
 	case string, ast.Printable, bool:
 		bb.Write(unsafeGetBytes(template.HTMLEscaper(t)))
 	case template.HTML:
@@ -1149,6 +1152,30 @@ func safeCall(fn reflect.Value, args []reflect.Value) (res []reflect.Value, err 
 	return fn.Call(args), nil
 }
 
+// safely runs f; a panic of f comes back as an error.
+func safely(f func()) (ok bool, err error) {
+	defer func() {
+		if r := recover(); r != nil {
+			if e, isErr := r.(error); isErr {
+				err = fmt.Errorf("panic: %w", e)
+			} else {
+				err = fmt.Errorf("panic: %v", r)
+			}
+		}
+	}()
+	f()
+	return true, nil
+}
+
+// safeNext asks an iterator of the caller's for its next element.
+func safeNext(it Iterator) (v interface{}, err error) {
+	_, err = safely(func() { v = it.Next() })
+	if err != nil {
+		err = fmt.Errorf("could not iterate over %T: %w", it, err)
+	}
+	return v, err
+}
+
 // isNilPointer reports whether the error is a nil pointer of a concrete
 // error type: a helper declared as func() (T, *MyErr) that returns nil has
 // not failed.
@@ -1279,7 +1306,10 @@ func (c *compiler) evalForExpression(node *ast.ForExpression) (interface{}, erro
 		}
 		if it, ok := iter.(Iterator); ok {
 			i := 0
-			ii := it.Next()
+			ii, err := safeNext(it)
+			if err != nil {
+				return nil, err
+			}
 			for ii != nil {
 				c.ctx.Set(node.KeyName, i)
 				c.ctx.Set(node.ValueName, ii)
@@ -1306,7 +1336,9 @@ func (c *compiler) evalForExpression(node *ast.ForExpression) (interface{}, erro
 					break
 				}
 
-				ii = it.Next()
+				if ii, err = safeNext(it); err != nil {
+					return nil, err
+				}
 				i++
 			}
 			return ret, nil
